@@ -112,6 +112,7 @@ def reference_root_walk(sc, cycle):
     def signed_by(doc, signer_root):
         return any(k in doc['signers'] for k in signer_root['roles']['root']['keys'])
     budget = cycle.get('limits', {}).get('max_root_updates', 1024); start = cur['version']
+    if not signed_by(cur, cur): return None, names       # a shipped root that does not verify under its own keys is refused
     while True:
         if not (cur['version'] < start + budget): return None, names       # MaxUpdatesExceeded
         name = str(cur['version'] + 1); names.append(name + '.root.json')
